@@ -128,6 +128,9 @@ def run(tier, replay=None):
         i = rnd.randrange(len(b))
         b[i] = rnd.choice("(){}[],+$")
         texts.append("".join(b))
+    # long parses: hundreds of tokens behind the cursor, look-ahead and backtracking late in the input
+    import frontlib
+    texts += frontlib.long_programs(seed, 4 if tier == "quick" else 40)
     treq = [{"id": i + 1, "src": t} for i, t in enumerate(texts)]
     traces = vh_json("tltrace", treq)
     traces.sort(key=lambda t: t["id"])
